@@ -26,6 +26,12 @@ class Model:
         self.tags = {n: ctx.const(BR, n) for n in mod.toplevel if n.startswith("TAG_")}
         self.imm = ctx.const(BR, "IMM_INTS")
         self.imm_loader = ctx.const(BR, "IMM_INTS_LOADER")
+        if not isinstance(self.imm, dict):
+            # the writer's table is a sequence indexed by a function of the value: what it writes is decided per value on the
+            # dump paths (R04.3); as a table, take the one the reader implements
+            if not isinstance(self.imm_loader, dict):
+                raise AnalysisError("neither IMM_INTS nor IMM_INTS_LOADER folds to a mapping")
+            self.imm = {v: k for k, v in self.imm_loader.items()}
         self.dumpers = {}      # type -> (Func, [DumpPath])
         for key, fn in B.registry_functions(ctx, "_dump_registry"):
             t = ctx.fold(key, mod)
@@ -73,10 +79,15 @@ class Model:
         for c in consts:
             if c >= 0:
                 pts |= {max(0, c - 1), c, c + 1}
-        if uses_in:
+        if uses_in or t is int:
             keys = sorted(k for k in self.imm)
             vs = {keys[0] - 1, keys[0], keys[0] + 1, -1, 0, 1, keys[-1] - 1, keys[-1], keys[-1] + 1,
                   10 ** 3, -10 ** 3, 10 ** 254, 10 ** 255, 10 ** 256, -10 ** 253, -10 ** 254, -10 ** 255}
+            # interval guards on the value itself: every constant of a guard (and its negation: `-0x30` is a unary minus)
+            for c in consts:
+                if c < 10 ** 6:
+                    vs |= {c - 1, c, c + 1, -c - 1, -c, -c + 1}
+            vs |= {keys[0] - len(keys), keys[0] - len(keys) - 1, keys[0] - len(keys) + 1, keys[0] - 2 * len(keys)}   # (index wrap-around)
             for v in sorted(vs):
                 vals.append({"value": v, "len": len(str(v))})
         elif uses_len:
@@ -631,11 +642,18 @@ def run(ctx, rep, model=None):
                                % (val["len"], it[1], cap), ctx.loc(p.nodes[-1]) if p.nodes else fn.loc)
             first = p.items[0] if p.items else None
             if first and first[0] == "imm":
-                okimm = first[2] == "IMM_INTS" and A.src(first[1]) == A.params(fn.node)[0]
-                if pid not in seen_paths:
-                    rep.ob("R04.3", "%s: immediate ints are written through IMM_INTS[obj]" % fn.name, okimm,
-                           "one byte looked up by the value itself" if okimm else "immediate int written as `%s`" % A.src(first[1]),
-                           ctx.loc(p.nodes[0]), kind="table")
+                try:
+                    byte_ = B.imm_byte(ctx, first, val, A.params(fn.node)[0])
+                    okimm = isinstance(byte_, bytes) and m.imm_loader.get(byte_) == val.get("value") and \
+                        type(m.imm_loader.get(byte_)) is int
+                    why_ = "int %s is written as %r, which the reader decodes as %r" % (val.get("value"), byte_, m.imm_loader.get(byte_))
+                except LookupError:
+                    okimm = False
+                    why_ = "the lookup `%s[%s]` fails for int %s, which the guards send down this path" % (
+                        first[2], A.src(first[1]), val.get("value"))
+                if pid not in seen_paths or not okimm:
+                    rep.ob("R04.3", "%s: immediate ints are written as the byte the reader maps back to them" % fn.name, okimm,
+                           "one byte looked up by the value" if okimm else why_, ctx.loc(p.nodes[0]), kind="table")
                 seen_paths.add(pid)
                 continue
             exp, probs = expected_term(m, t, p, val)
